@@ -252,6 +252,11 @@ def show_value(v, S):
         return "(" + ",".join(show_value(x, S) for x in v) + ")"
     if isinstance(v, ir.Method):
         return "<closure>"
+    from bloqade.shuttle.dialects import schedule as _sched
+    if isinstance(v, _sched.ReverseDeviceFunction):
+        return "rev:" + show_value(v.device_task, S)
+    if isinstance(v, _sched.DeviceFunction):
+        return f"dev:{v.move_fn.sym_name}[{','.join(str(int(t)) for t in v.x_tones)}|{','.join(str(int(t)) for t in v.y_tones)}]"
     return "?" + type(v).__name__
 
 
@@ -442,6 +447,22 @@ def root(a: int):
     return (maker(a), 7)
 """
 
+# device functions as VALUES: two over one kernel that differ in their y tones only (one tone from the spec) meeting at a run-time branch
+CLOSURE_SHAPES["device-functions-at-a-join"] = """
+@tweezer
+def maker(p: float):
+    action.set_loc(grid.from_positions([p], [0.0]))
+
+@move{DEC}
+def root(a: int):
+    if a > 1:
+        f = schedule.device_fn(maker, [0, 1], [0, spec.get_int_constant(constant_id="rows")])
+    else:
+        f = schedule.device_fn(maker, [0, 1], [0])
+    g = schedule.reverse(f)
+    return (f, g, {L0})
+"""
+
 CLOSURE_ROOT = """
 @move{DEC}
 def root(a: int):
@@ -465,16 +486,16 @@ def closure_cases(ctx, S):
                 body = tmpl.replace("{LOOKUPS}", f"{l0}, {l1}").replace("{L0}", l0).replace("{L1}", l1).replace("{MDEC}", mdec)
                 if "def root" not in body:
                     body += CLOSURE_ROOT.replace("{MARG}", "4" if shape == "captures-parameter" else "")
-                for fold in (True, False):
+                for fold, arg in ((True, 1), (False, 1), (True, 2)):
                     ctx.evaluations += 1
                     n += 1
-                    rep = {"closure_src": body, "fold": fold}
+                    rep = {"closure_src": body, "fold": fold, "arg": arg}
                     try:
-                        a = ("ok", kernels.define(body.replace("{DEC}", f"(arch_spec=S, fold={fold})"), S=S)["root"](1))
+                        a = ("ok", kernels.define(body.replace("{DEC}", f"(arch_spec=S, fold={fold})"), S=S)["root"](arg))
                     except Exception as e:
                         a = ("err", type(e).__name__)
                     try:
-                        b = ("ok", ArchSpecInterpreter(move, arch_spec=S).run(kernels.define(body.replace("{DEC}", ""), S=S)["root"], (1,)))
+                        b = ("ok", ArchSpecInterpreter(move, arch_spec=S).run(kernels.define(body.replace("{DEC}", ""), S=S)["root"], (arg,)))
                     except Exception as e:
                         b = ("err", type(e).__name__)
                     ta = show_value(a[1], S) if a[0] == "ok" else "ERR:" + a[1]
@@ -580,6 +601,57 @@ def translated_lookups(ctx):
                    ok and closed >= 3, log[-600:])
 
 
+DEVICE_CALL_SRC = """
+@tweezer
+def kd(p: float, q: float):
+    z = spec.get_static_trap(zone_id="traps")
+    s = z[0:2, 1]
+    action.set_loc(s)
+    action.turn_on([0, 1], [0])
+    action.move(grid.shift(s, p, spec.get_float_constant(constant_id="pitch")))
+    action.move(grid.shift(s, p, q))
+
+@move{DEC}
+def root(x: float):
+    f = schedule.device_fn(kd, [0, 1], [0])
+    f(1.0, 2.0)
+    schedule.reverse(f)(1.0, 2.0)
+    schedule.reverse(f)(q=0.5, p=x)
+    with schedule.parallel():
+        f(x, 0.25)
+        schedule.reverse(f)(3.0, 4.0)
+    schedule.reverse(schedule.reverse(f))(2.0, q=1.0)
+"""
+
+
+def device_call_kernels(ctx, S):
+    """kernels that PLAY device functions, forward and reversed, with constant and run-time operands: what the compiled kernel plays under an
+    executor that knows no spec is what the unspecialised kernel plays under an executor that carries the spec"""
+    from props import tracer_common as tc
+    from vcommon import events
+    ref = events.run_events(kernels.define(DEVICE_CALL_SRC.replace("{DEC}", ""), S=S)["root"], (1.5,), S)
+    want = events.events_text(ref[1], tc.PosTable()) if ref[0] == "ok" else None
+    if want is None or len(want) != 5:
+        ctx.obligation("the device-call kernel runs under the spec-carrying executor", False, str(ref[2])[:200])
+        return
+    for fold in (True, False):
+        ctx.evaluations += 1
+        rep = {"device_call_src": DEVICE_CALL_SRC, "fold": fold}
+        try:
+            m = kernels.define(DEVICE_CALL_SRC.replace("{DEC}", f"(arch_spec=S, fold={fold})"), S=S)["root"]
+            st, evs, extra = events.run_events(m, (1.5,), S, plain=True)
+        except Exception as e:
+            st, evs, extra = "err", [], f"{type(e).__name__}: {e}"
+        got = events.events_text(evs, tc.PosTable()) if st == "ok" else ["ERR " + str(extra)[:100]]
+        if got != want:
+            k = next((j for j in range(min(len(got), len(want))) if got[j] != want[j]), min(len(got), len(want)))
+            ctx.fail({"kind": "behaviour-differs", "device_calls": True, "fold": fold}, rep,
+                     f"@move(arch_spec=S, fold={fold}) kernel playing device functions: play {k} is {(got[k] if k < len(got) else '<none>')[:110]} but the unspecialised kernel "
+                     f"under the spec plays {(want[k] if k < len(want) else '<none>')[:110]}")
+        else:
+            ctx.nt(("device-calls", fold))
+
+
 def run(ctx):
     translated_lookups(ctx)
     from bloqade.shuttle.arch import ArchSpecInterpreter
@@ -589,6 +661,7 @@ def run(ctx):
     single_lookup_cases(ctx, S)
     closure_cases(ctx, S)
     filled_zone_cases(ctx)
+    device_call_kernels(ctx, S)
     ctx.rule = ("tables of 2-4 @move kernels (root + subroutines, some recursive with a depth parameter, closures capturing looked-up values, "
                 "closures returned from recursive subroutines and called by the root) mixing the four lookup kinds (6% absent names) with "
                 "constants, tuples, variables; root compiled with arch_spec (fold on and off) and called through ir.Method.__call__ (plain "
@@ -836,6 +909,17 @@ def replay(data):
             b = "ERR"
         known = inp["name_known_under_this_kind"]
         return a != b or (not known and a != "ERR") or (known and a == "ERR"), f"compiled: {a[:60]}; spec interpreter: {b[:60]}"
+    if "device_call_src" in inp:
+        class C:
+            def __init__(s): s.fails, s.evaluations = [], 0
+            def fail(s, sig, rep, what):
+                if rep["fold"] == inp["fold"]: s.fails.append(what)
+            def nt(s, *a): pass
+            def obligation(s, n, ok, log=""):
+                if not ok: s.fails.append(n)
+        c = C()
+        device_call_kernels(c, c06_spec())
+        return bool(c.fails), (c.fails or ["same plays on both routes"])[0][:200]
     if "filled_src" in inp:
         from bloqade.shuttle.arch import ArchSpecInterpreter
         from bloqade.shuttle.prelude import move
@@ -853,10 +937,10 @@ def replay(data):
         S = c06_spec()
         src = inp["closure_src"]
         try:
-            a = show_value(kernels.define(src.replace("{DEC}", f"(arch_spec=S, fold={inp['fold']})"), S=S)["root"](1), S)
+            a = show_value(kernels.define(src.replace("{DEC}", f"(arch_spec=S, fold={inp['fold']})"), S=S)["root"](inp.get("arg", 1)), S)
         except Exception as e:
             a = "ERR:" + type(e).__name__
-        b = show_value(ArchSpecInterpreter(move, arch_spec=S).run(kernels.define(src.replace("{DEC}", ""), S=S)["root"], (1,)), S)
+        b = show_value(ArchSpecInterpreter(move, arch_spec=S).run(kernels.define(src.replace("{DEC}", ""), S=S)["root"], (inp.get("arg", 1),)), S)
         return a != b, f"compiled: {a[:80]}; spec interpreter: {b[:80]}"
     if "history_src" in inp:
         S, S2 = c06_spec(), moved_spec()
